@@ -589,6 +589,11 @@ pub fn simulate_history(seed: u64, profile: Profile, oracles: Oracles, transcrip
             warm.push(Warm { k, s: 0, n: r.range(1, 64) as u32 });
         }
     }
+    if r.chance(1, 8) {
+        // ... and one request that the library rejects with a panic (survived by the thread)
+        let at = r.usize_below(warm.len() + 1);
+        warm.insert(at, Warm { k: 56404 + r.below(3) as u32 * 4000, s: 0, n: 0 });
+    }
     setup.warm = warm;
     setup.fresh_check = true;
     simulate_setup(r, setup, profile, oracles, transcript)
